@@ -5,8 +5,14 @@ From BiomV Require Import Base.Tree Base.ListUtil Base.Matrix Model.Table Model.
 Import ListNotations.
 
 (* ---------------- (a) content level ---------------- *)
-Theorem call_equiv core t : result_content (call true core t) = result_content (call false core t).
-Proof. unfold call. rewrite copy_id. destruct (core t); reflexivity. Qed.
+Theorem call_equiv core t :
+  normal t -> result_content (call true core t) = result_content (call false core t).
+Proof. intros N. unfold call. rewrite (copy_id t N). destruct (core t); reflexivity. Qed.
+
+(* without the hypothesis: the non-in-place variant is the in-place one applied to the copy *)
+Theorem call_new_is_inplace_on_copy core t :
+  result_content (call false core t) = result_content (call true core (copy t)).
+Proof. unfold call. destruct (core (copy t)); reflexivity. Qed.
 
 Theorem call_inplace_self core t t' :
   core t = ROk t' -> call true core t = mkO t' RSelf.
@@ -21,9 +27,10 @@ Theorem call_new_keeps core t :
 Proof. unfold call. destruct (core (copy t)); simpl; split; (reflexivity || discriminate). Qed.
 
 Theorem update_ids_call_equiv m a strict t :
+  normal t ->
   result_content (update_ids_call m a strict true t) = result_content (update_ids_call m a strict false t).
 Proof.
-  unfold update_ids_call. rewrite (update_ids_inplace_same m a strict t).
+  intros N. unfold update_ids_call. rewrite (update_ids_inplace_same m a strict t N).
   destruct (update_ids m a strict false t); reflexivity.
 Qed.
 
@@ -47,8 +54,8 @@ Proof.
     + eapply Hc; eassumption.
     + intros t' H. inversion H; subst. eapply Hc; eassumption.
     + intros t' H. discriminate.
-  - rewrite copy_id. destruct (core t) as [t1|c] eqn:E; simpl; split; try exact W.
-    + intros t' H. inversion H; subst. eapply Hc; eassumption.
+  - destruct (core (copy t)) as [t1|c] eqn:E; simpl; split; try exact W.
+    + intros t' H. inversion H; subst. eapply Hc; [apply wf_copy; exact W|exact E].
     + intros t' H. discriminate.
 Qed.
 
@@ -68,7 +75,7 @@ Theorem filter_call_wf keep invert a inplace t :
   (forall t', result_content (filter_call keep invert a inplace t) = ROk t' -> wf t').
 Proof.
   intros W. apply call_wf; [|exact W]. intros x x' Wx H. unfold filter_ids in H.
-  destruct (forallb _ keep); [|discriminate]. inversion H; subst. apply wf_filter_mask. exact Wx.
+  destruct (forallb _ keep); [|discriminate]. inversion H; subst. apply wf_filter_table. exact Wx.
 Qed.
 
 Theorem remove_empty_call_wf axis3 inplace t :
@@ -77,5 +84,24 @@ Theorem remove_empty_call_wf axis3 inplace t :
 Proof.
   intros W. apply call_wf; [|exact W]. intros x x' Wx H. inversion H; subst.
   unfold remove_empty_core, remove_empty_whole, remove_empty_axis.
-  destruct axis3 as [|p|p]; try destruct p; repeat apply wf_filter_mask; exact Wx.
+  destruct axis3 as [|p|p]; try destruct p; repeat apply wf_filter_table; exact Wx.
+Qed.
+
+(* ---------------- constructor-normal metadata is kept by the flag operations ---------------- *)
+Lemma filter_table_normal mask a t : normal (filter_table mask a t).
+Proof. split; unfold md_normal, filter_table, norm_md; simpl; apply ctor_md_idem. Qed.
+
+Theorem call_normal inplace core t :
+  (forall x x', normal x -> core x = ROk x' -> normal x') -> normal t ->
+  normal (recv_after (call inplace core t)) /\
+  (forall t', result_content (call inplace core t) = ROk t' -> normal t').
+Proof.
+  intros Hc N. unfold call. destruct inplace.
+  - destruct (core t) as [t1|c] eqn:E; simpl; split; try exact N.
+    + eapply Hc; eassumption.
+    + intros t' H. inversion H; subst. eapply Hc; eassumption.
+    + intros t' H. discriminate.
+  - destruct (core (copy t)) as [t1|c] eqn:E; simpl; split; try exact N.
+    + intros t' H. inversion H; subst. eapply Hc; [apply copy_normal|exact E].
+    + intros t' H. discriminate.
 Qed.
